@@ -35,7 +35,7 @@ def main():
         print("suite output:", o[-600:])
     # demo with the mutant
     shutil.copy(demo, os.path.join(scratch, "zz_demo_test.go"))
-    rc, o = sh("go test -vet=off -count=1 -run 'Demo|demo' . 2>&1 | tail -5", cwd=scratch)
+    rc, o = sh("go test -vet=off -count=1 -run . . 2>&1 | tail -5", cwd=scratch)
     res["demo_fails_with_mutant"] = "FAIL" in o
     os.remove(os.path.join(scratch, "zz_demo_test.go"))
     # demo without: against /repo copy
@@ -43,7 +43,7 @@ def main():
     shutil.rmtree(clean, ignore_errors=True)
     shutil.copytree("/repo", clean, ignore=shutil.ignore_patterns(".git"))
     shutil.copy(demo, os.path.join(clean, "zz_demo_test.go"))
-    rc, o2 = sh("go test -vet=off -count=1 -run 'Demo|demo' . 2>&1 | tail -5", cwd=clean)
+    rc, o2 = sh("go test -vet=off -count=1 -run . . 2>&1 | tail -5", cwd=clean)
     res["demo_passes_without"] = rc == 0 and "ok" in o2
     shutil.rmtree(clean, ignore_errors=True)
     res["checks"] = {}
